@@ -547,6 +547,23 @@ func (w *World) guardsImply(gs []Guard, atomOf func(ast.Expr) string, goal func(
 	return true
 }
 
+// rootsVia: the name of f's declared root and, while that root is an unexported helper with a
+// sole call site, of the roots of its callers (an extracted helper is part of its only caller):
+// rules that except or allow a *place* ("Open", "StreamWriter.Flush") accept a helper of that place.
+func (w *World) rootsVia(f *Fn) []string {
+	var out []string
+	for i := 0; f != nil && i < 4; i++ {
+		root := f.Root()
+		out = append(out, root.Name)
+		cs := w.soleCallSite(root)
+		if cs == nil {
+			break
+		}
+		f = cs.Caller
+	}
+	return out
+}
+
 // soleCallSite: the only call site of an unexported, declared function (static, synchronous); nil otherwise.
 func (w *World) soleCallSite(f *Fn) *CallSite {
 	if f == nil {
